@@ -3,7 +3,7 @@
    routines, any buffer sizes, any nesting) and ALL schedules.  What the model cannot exhibit (Go scheduler,
    data races on interpreter globals, fatal `concurrent map` errors) is exercised on the implementation only:
    see props/C17.json. *)
-From C17 Require Import Model Spec Steps ChanProofs MutexProofs CounterProofs FlatProofs ObsProofs Explore Corr Proofs ScopeModel ScopeProofs TableModel TableProofs.
+From C17 Require Import Model Spec Steps ChanProofs MutexProofs CounterProofs FlatProofs ObsProofs Explore Corr Proofs ScopeModel ScopeProofs TableModel TableProofs ProofsReduction.
 
 (* (1) "every item pushed on a channel is received exactly once".
    Conservation: what was sent on a channel = what was received ++ what is still queued ++ what a close
@@ -171,7 +171,10 @@ Print Assumptions C17_nofail_never_unwinds.
    primitives); (b) every condition in obs_ok holds for whatever any schedule can show, so an observation
    that breaks one (code 2) is outside the model; (c) for guarded counters the result is the one of every
    serial order (C17_counter_final: it does not depend on the schedule).  NOT proved: the reduction theorem
-   that every schedule is equivalent to one with un-interleaved critical sections, for arbitrary bodies. *)
+   that every schedule is equivalent to one with un-interleaved critical sections, for arbitrary bodies.
+   (Since deepen5: the reduction theorem IS proved for the class `one_mutex_sections` -- see item (13) at the
+   end of this file, C17_serial_reduction / C17_serial_reduction_reorders, which subsume (c) for that class; this
+   theorem stays as the statement about the per-run checker.) *)
 Theorem C17_serial_outcome_partial : forall p o sch, check_case (p, o, Some sch) = 0%N ->
   exists s, reach p s /\ matches s o = true /\ obs_ok p o = true.
 Proof. exact check_zero_sound. Qed.
@@ -345,3 +348,48 @@ Print Assumptions C17_unlocked_slot_read_overlaps_write_refuted.
 Theorem C17_must_wait_spec : forall o sy, must_wait o sy = true <-> (sy = true /\ iop_uses o <> []).
 Proof. exact must_wait_spec. Qed.
 Print Assumptions C17_must_wait_spec.
+
+(* (13) "same result as some sequential execution" -- the reduction (serialisability) theorem, for the class
+   `one_mutex_sections p`: the program uses only cells, ONE mutex, ignore-errors and (error) (= `flat p` with
+   `p_nmutex p = 1`: no channel operation, no with-mutex-lock nested in another), and reads / writes cells only
+   inside with-mutex-lock bodies (`sec p`).  Any number of routines, any number and length of sections, arbitrary
+   section bodies (not only increments), errors unwinding out of sections included.
+   For EVERY state that ANY schedule can reach -- intermediate or final -- there is a schedule reaching the SAME
+   state (same cells, same registers, logs and control stacks of every routine) in which nobody else moves while a
+   routine holds the mutex (`serial_from`: every pick (j,k) is made in a state where the mutex is free or held by
+   j): the critical sections run one after the other, un-interleaved, in the order of their acquire steps.
+   Subsumes item (8)(c) and C17_guarded_result_schedule_independent for programs of this class (any bodies, not
+   only counters).  Not covered (still open): several mutexes, sections containing channel operations, cells
+   accessed outside sections (`serial_from` says nothing about such accesses; C17_unguarded_rmw_loses_refuted
+   shows what they allow). *)
+Theorem C17_serial_reduction : forall p s, one_mutex_sections p = true -> reach p s ->
+  exists sch, run_sched (init p) sch = Some s /\ serial_from (init p) sch.
+Proof. exact serial_reduction_class. Qed.
+Print Assumptions C17_serial_reduction.
+
+(* ... and the un-interleaved schedule is a REORDERING of the given one: every routine makes the same picks in
+   the same order (`proj x` = the picks of routine x); only the interleaving between routines changes *)
+Theorem C17_serial_reduction_reorders : forall p sch s, one_mutex_sections p = true -> run_sched (init p) sch = Some s ->
+  exists sch', run_sched (init p) sch' = Some s /\ serial_from (init p) sch' /\ forall x, proj x sch' = proj x sch.
+Proof. exact serial_reduction_sched_class. Qed.
+Print Assumptions C17_serial_reduction_reorders.
+
+(* the mover lemma behind it, for all states: while routine i holds the mutex, a step of another routine j that
+   follows a step of i can be taken before it, with the same result (j's step is local: it is not inside a
+   section, cannot acquire, and does not touch a cell) *)
+Theorem C17_local_step_moves_left : forall nx s i b s1 j k s2,
+  flat_inv 1 nx s -> flat_inv 1 nx s1 -> lock_inv s1 -> sec_inv s1 ->
+  i <> j -> step s i b = Some s1 -> nth_error (mus s1) 0 = Some (Some i) -> step s1 j k = Some s2 ->
+  exists s1', step s j k = Some s1' /\ step s1' i b = Some s2 /\ mus s1' = mus s.
+Proof. exact commute_local. Qed.
+Print Assumptions C17_local_step_moves_left.
+
+(* non-vacuity: two routines with two sections each (and a caught error between two sections): an interleaved
+   schedule (routine 0 moves three times while routine 1 is inside its first section; not un-interleaved) and
+   the un-interleaved one reach the same finished state, cells [9; 6] *)
+Theorem C17_serial_reduction_example :
+  one_mutex_sections ex_red = true /\ serialb (init ex_red) ex_red_interleaved = false /\
+  exists s, run_sched (init ex_red) ex_red_interleaved = Some s /\ all_finished s = true /\ mem s = [9; 6]%Z /\
+            run_sched (init ex_red) ex_red_serial = Some s /\ serial_from (init ex_red) ex_red_serial.
+Proof. exact reduction_example. Qed.
+Print Assumptions C17_serial_reduction_example.
